@@ -707,7 +707,11 @@ class ExprGen:
         if r < 0.86:
             return J.Filter(self.gnum(d - 1), "round", self.pick([], [], [C(0)], [C(0), C("ceil")], [C(0), C("floor")], [C(0), C("common")]))
         if r < 0.91: return J.Filter(self.gflt(d - 1), "abs")
-        if r < 0.96: return J.Filter(J.List([self.gnum(d - 1), self.gnum(d - 1)]), "sum")
+        if r < 0.94: return J.Filter(J.List([self.gnum(d - 1), self.gnum(d - 1)]), "sum")
+        if r < 0.98:
+            # equal values of different kinds (1, 1.0, true) keep their order when sorted; min / max take the first
+            items = [self.pick(C(1), C(1.0), C(True), C(2), C(2.0), C(0.5), N("fl1"), N("i1"), self.gnum(d - 1)) for _ in range(self.rnd.randint(2, 4))]
+            return J.Filter(J.List(items, tup=self.rnd.random() < 0.3), self.pick("sort", "min", "max"))
         return J.Cond(self.gbool(d - 1), self.gflt(d - 1), self.gint(d - 1))
 
     def gbool(self, d):
